@@ -14,7 +14,8 @@
   * `mutual_required_accepted`: the same with `extend input In { req: Int! }`: the document declares nothing (its
     default `{a: 3}` is not a value of the extended `In`) and is accepted.
 -/
-import PyGqlModel.Props.C11_valid
+import PyGqlModel.Props.C11_extend
+import PyGqlModel.SdlInProgress
 
 set_option linter.unusedVariables false
 set_option linter.unusedSimpArgs false
@@ -87,5 +88,35 @@ theorem h4A_not_selfDefaults : ¬ SelfDefaults h4ADoc := by
 /-- **hunt4 C11-1 (B)**: the default `{a: 3}` lacks the required field the extension adds — the document declares no
     content (`SdlValid.declares` fails: it is INVALID) — and the builder accepts it. -/
 theorem mutual_required_accepted : Declared h4BDoc = none ∧ (build h4BDoc).toBool = true := by decide
+
+/-! ### the exact model `buildP` (SdlInProgress.lean) and the model of the theorems -/
+
+/-- with `ignore_extensions=True` the two models are the same function -/
+theorem buildP_ignoreExtensions (doc : Doc) (add : List TypeD) : buildP doc true add = buildA doc true add := by
+  unfold buildP buildA
+  simp only [Bool.true_or, if_true]
+
+/-- … and on a document none of whose extension blocks is kept (no `extend` of a known type, no `extend schema`) both
+    return the schema built from the definitions: the in-progress bookkeeping only concerns the extension pass -/
+theorem buildP_noext (doc : Doc) (add : List TypeD) (hx : typeExts doc = []) (hsx : schemaExtensions doc = []) :
+    buildP doc false add = buildA doc false add := by
+  have hext : ∀ live, typeExtensions live doc = [] := by
+    intro live
+    rw [typeExtensions_eq_filter, hx]; rfl
+  unfold buildP buildA
+  simp only [hext, hsx, List.isEmpty_nil, Bool.and_self, Bool.or_true, Bool.false_or, if_true, Bool.false_eq_true, if_false]
+  cases collectDefinitions doc with
+  | error e => rfl
+  | ok c =>
+    simp only [bind, Except.bind]
+    cases buildCollectedA c (normAdditional add) with
+    | error e => rfl
+    | ok p =>
+      obtain ⟨env, live⟩ := p
+      simp only [extendSchemaA, hext, hsx, List.isEmpty_nil, Bool.and_self, if_true, pure, Except.pure]
+
+/-- the exact model on hunt4 C11-1: the same verdicts as the model of the theorems (and as the code) -/
+theorem buildP_h4 :
+    (match buildP h4ADoc with | .ok s => isA3 (otherX s) | .error _ => false) = true ∧ (buildP h4BDoc).toBool = true := by decide
 
 end PyGql.Props.C11
